@@ -503,9 +503,14 @@ def phase_spec(gene, profile, muts, copies, VA, VK, VN, m, phases):
         if len(c) > 1:
             modes[tuple(c)] += 1
     total = []
+    # the builder numbers allele copies in its own construction order: copy 0 of every
+    # candidate first, then the further copies candidate by candidate
+    firsts = [c for c in copies if c[2] == 0]
+    order = firsts + [c for f in firsts for c in copies
+                      if c[:2] == f[:2] and c[2] > 0]
     for ri, (rr, cnt) in enumerate(modes.items()):
         r = dict(rr)
-        for ai, c in enumerate(copies):
+        for ai, c in enumerate(order):
             pos, neg = [], []
             for v in muts:
                 if v.pos not in r or not stagelib.allele_has_region(gene, c[0], v.pos):
